@@ -380,15 +380,24 @@ def lastflag(P, E, chk, r4, send, uparam):
         ok = False
         if guard.d_holds(d, "==", flag, 0) and nkey and guard.d_holds(d, "==", nkey, 0):
             ok = True
+        find = guard.d_equiv(d)
+
+        def canon(at_):
+            # the length may be known under the name of a helper's local that equals the one that is sent
+            out_ = {}
+            for k_, v_ in at_.items():
+                kk = find(k_)
+                out_[kk] = out_.get(kk, 0) + v_
+            return {k_: v_ for k_, v_ in out_.items() if v_}
         for f in d:
             if f.kind == "cmp" and f.op == "==" and f.key[0] == flag:
                 r = sk(f.r)
                 if r.get("k") == "Bin" and r["op"] == "==":
                     n = L.norm_cmp(r["a"][0], "==", r["a"][1])
                     if n is not None:
-                        at = dict(n[0])
-                        want = {base + ".len": 1, base + ".offset": -1, nkey: -1}
-                        if n[1] == "==" and n[2] == 0 and (at == want or at == {k: -v for k, v in want.items()}):
+                        at = canon(dict(n[0]))
+                        want = canon({base + ".len": 1, base + ".offset": -1, nkey: -1}) if nkey else {}
+                        if n[1] == "==" and n[2] == 0 and want and (at == want or at == {k: -v for k, v in want.items()}):
                             ok = True
         if not ok and nkey:
             # the flag set by an if instead of by the comparison itself: 1 where the equality is known, 0 where its
